@@ -9,10 +9,10 @@ from .spies import EventLog, Injector, Loss, Model, make_imputer_spy, make_stora
 
 NAME_SETS = {
     'str': ['a', 'b', 'c'],
-    'int': [3, 1, 2],
-    'float': [0.5, 2.5, 1.5],
+    'int': [3, 0, 2],                  # unsorted, and 0 is a falsy name
+    'float': [0.5, 0.0, 1.5],          # 0.0 likewise
     'mixed': ['a', 1, 2.5],
-    'str+int': ['a', 1, 'c'],
+    'str+int': ['', 1, 'c'],            # '' is a (falsy) string name
     'str+float': ['a', 0.5, 'c'],
     'int+float': [1, 0.5, 2],
 }
